@@ -638,7 +638,11 @@ func evalServer(d caseDesc) ev.Result {
 	default:
 		return ev.Failf(fmt.Sprintf("response-shape:%d", d.Pos), "%s: answered status %d Message-Type %d body %x — neither the next message nor an FDO error message", tag, r.Status, r.Type, r.Body[:min(len(r.Body), 40)])
 	}
-	res := ev.OK(fmt.Sprintf("server-%d/%s/%d", d.Pos, d.In.Kind, r.Type))
+	kindClass := d.In.Kind
+	if d.In.Op == "devmod-grammar" {
+		kindClass = "devmod-grammar"
+	}
+	res := ev.OK(fmt.Sprintf("server-%d/%s/%d", d.Pos, kindClass, r.Type))
 	res.NonTrivial = d.In.Kind != "honest"
 	res.ID = fmt.Sprintf("s|%d|%d|%s|%d|%d|%d|%d|%d|%s", d.Pos, d.Cfg%len(cfgs), d.In.Kind, d.In.Node, d.In.Arg, d.In.Node2, d.In.Arg2, d.In.Size, d.In.Hex+d.In.Op+fmt.Sprint(d.In.Resign))
 	return res
@@ -977,6 +981,63 @@ func evalHTTP(d httpDesc) ev.Result {
 
 // ---------------------------------------------------------------------------
 
+// genDevmodMsg generates a whole TO2.DeviceServiceInfo body from a devmod grammar: any
+// subset/order/multiplicity of the devmod keys, nummodules from small, negative and huge values,
+// and several devmod:modules chunks whose [start, len, names...] are consistent on their own
+// but need not fit each other or the announced count (multi-step histories inside one body).
+func genDevmodMsg(t *rapid.T) []byte {
+	enc := func(n *refcbor.Node) *refcbor.Node { return refcbor.B(refcbor.Encode(n)) }
+	num := rapid.SampledFrom([]int64{0, 1, 2, 3, 3, 4, 5, 6, 8, -1, 1 << 31, 1 << 40}).Draw(t, "nummodules")
+	var kvs []*refcbor.Node
+	kv := func(k string, v *refcbor.Node) { kvs = append(kvs, refcbor.A(refcbor.T("devmod:"+k), enc(v))) }
+	if rapid.IntRange(0, 4).Draw(t, "lead") > 0 {
+		kv("active", refcbor.Bool(true))
+	}
+	if rapid.IntRange(0, 4).Draw(t, "numfirst") > 0 {
+		kv("nummodules", refcbor.I(num))
+	}
+	n := rapid.IntRange(1, 7).Draw(t, "nkv")
+	names := []string{"a", "b", "c", "fdo.download", "devmod", "x"}
+	small := num
+	if small < 0 || small > 8 {
+		small = 3
+	}
+	next := int64(0) // index an honest device would send next
+	for i := 0; i < n; i++ {
+		switch rapid.IntRange(0, 11).Draw(t, "what") {
+		case 0:
+			kv("nummodules", refcbor.I(rapid.SampledFrom([]int64{num, num, small, small + 1, 0}).Draw(t, "num2")))
+		case 1, 2, 3, 4, 5, 6, 7:
+			// a chunk that is well-formed on its own; start/len relative to what an honest device would send
+			rem := small - next
+			start := rapid.SampledFrom([]int64{next, next, next, 0, next - 1, next + 1, small - 1, small, -1}).Draw(t, "start")
+			l := rapid.SampledFrom([]int64{rem, rem, 1, 2, rem + 1, rem - 1, 0, small, 3}).Draw(t, "len")
+			if l < 0 {
+				l = 0
+			}
+			cnt := l + rapid.SampledFrom([]int64{0, 0, 0, 0, 0, 0, -1, 1}).Draw(t, "delta")
+			items := []*refcbor.Node{refcbor.I(start), refcbor.I(l)}
+			for j := int64(0); j < cnt; j++ {
+				items = append(items, refcbor.T(names[(int64(i)+j)%int64(len(names))]))
+			}
+			kv("modules", refcbor.A(items...))
+			if start == next && l <= rem {
+				next += l
+			}
+		case 8:
+			k := rapid.SampledFrom([]string{"os", "arch", "version", "device", "sep", "bin", "nl", "tmp", "dir", "progenv", "mudurl", "pathsep"}).Draw(t, "strkey")
+			kv(k, refcbor.T(rapid.SampledFrom([]string{"", "x", "linux", "/tmp"}).Draw(t, "sv")))
+		case 9:
+			kv("sn", refcbor.B([]byte("sn1")))
+		case 10:
+			kv(rapid.SampledFrom([]string{"nummodules", "modules", "active", "os", "unknown"}).Draw(t, "badkey"), rapid.SampledFrom([]*refcbor.Node{refcbor.Null(), refcbor.T("x"), refcbor.A(), refcbor.I(-5), refcbor.A(refcbor.I(0)), refcbor.A(refcbor.I(0), refcbor.I(1)), refcbor.A(refcbor.T("a"), refcbor.I(1), refcbor.I(2))}).Draw(t, "badval"))
+		default:
+			kv("active", refcbor.Bool(rapid.Bool().Draw(t, "act")))
+		}
+	}
+	return refcbor.Encode(refcbor.A(refcbor.Bool(rapid.IntRange(0, 3).Draw(t, "more") == 0), refcbor.A(kvs...)))
+}
+
 func genInput(t *rapid.T, pos int) input {
 	protectedPos := pos >= 65 && pos <= 71
 	kinds := []string{"mutate", "mutate", "mutate", "mutate", "mutate2", "bit", "trunc", "extend", "random", "nest", "binleaf"}
@@ -985,6 +1046,9 @@ func genInput(t *rapid.T, pos int) input {
 	}
 	if pos == 68 || pos == 69 {
 		kinds = append(kinds, "manykv", "manykv")
+	}
+	if pos == 68 {
+		kinds = append(kinds, "devmod", "devmod", "devmod")
 	}
 	in := input{Kind: rapid.SampledFrom(kinds).Draw(t, "kind"), Node: rapid.IntRange(0, 120).Draw(t, "node"), Arg: int64(rapid.IntRange(-6000, 6000).Draw(t, "arg"))}
 	switch in.Kind {
@@ -1000,6 +1064,9 @@ func genInput(t *rapid.T, pos int) input {
 		in.Node2, in.Arg2 = rapid.IntRange(0, 120).Draw(t, "node2"), int64(rapid.IntRange(-6000, 6000).Draw(t, "arg2"))
 	case "extend", "nest":
 		in.Size = rapid.IntRange(0, 63).Draw(t, "size")
+	case "devmod":
+		in.Kind, in.Op = "literal", "devmod-grammar"
+		in.Hex = hex.EncodeToString(genDevmodMsg(t))
 	case "random":
 		n := rapid.SampledFrom([]int{0, 1, 2, 5, 17, 64, 300}).Draw(t, "rlen")
 		in.Hex = hex.EncodeToString(rapid.SliceOfN(rapid.Byte(), n, n).Draw(t, "rbytes"))
@@ -1239,10 +1306,15 @@ func TestC10(t *testing.T) {
 		}
 	}, evalClient)
 
-	r.SetRule("server", "for every server position, after the honest preceding steps (manual peers against the real responders behind the real HTTP handler, 5 configurations covering EC/RSA keys, all key-exchange families, AEAD and encrypt-then-MAC ciphers) the message is replaced by: one or two structure-aware mutations of the honest message (all operators: out-of-range enum/algorithm ids, null/absent optionals, negative and huge integers, length inflation, type changes, wrap/unwrap, duplicated/deleted items), bit flip, truncation, extension, random bytes, nested length-inflated containers up to 60 KiB; at protected positions (66,68,70) the plaintext is mutated and correctly re-encrypted, or the envelope is mutated. Oracle: no panic, response within 20 s, allocation ≤ 3 MiB + 1 KiB·len, and the response is the legitimate next message or a well-formed FDO ErrorMessage. Non-trivial: every delivered hostile message; distinct by (position, config, input).")
+	r.SetRule("server", "for every server position, after the honest preceding steps (manual peers against the real responders behind the real HTTP handler, 5 configurations covering EC/RSA keys, all key-exchange families, AEAD and encrypt-then-MAC ciphers) the message is replaced by: one or two structure-aware mutations of the honest message (all operators: out-of-range enum/algorithm ids, null/absent optionals, negative and huge integers, length inflation, type changes, wrap/unwrap, duplicated/deleted items), bit flip, truncation, extension, random bytes, nested length-inflated containers up to 60 KiB, at 68 also whole DeviceServiceInfo bodies from a devmod grammar (any order/multiplicity of devmod keys, nummodules small/negative/huge, several modules chunks that are consistent alone but need not fit each other or the announced count); at protected positions (66,68,70) the plaintext is mutated and correctly re-encrypted, or the envelope is mutated. Oracle: no panic, response within 20 s, allocation ≤ 3 MiB + 1 KiB·len, and the response is the legitimate next message or a well-formed FDO ErrorMessage. Non-trivial: every delivered hostile message; distinct by (position, config, input).")
 	ev.Rapid(r, "server", ev.N{Quick: 9000, Thorough: 400000}, func(t *rapid.T) caseDesc {
 		p := rapid.SampledFrom(serverPositions).Draw(t, "pos")
 		return caseDesc{Side: "server", Pos: p, Cfg: rapid.IntRange(0, len(cfgs)-1).Draw(t, "cfg"), In: genInput(t, p)}
+	}, evalServer)
+
+	r.SetRule("devmod", "whole TO2.DeviceServiceInfo (68) bodies from the devmod grammar delivered, correctly encrypted, to a session that completed 60..66: nummodules N (0..8, negative, 2^31, 2^40), then 1..7 entries: modules chunks [start, len, names...] that are well-formed on their own with start ∈ {the index an honest device would send next, 0, next±1, N-1, N, -1} and len ∈ {remaining, remaining±1, 0, 1, 2, 3, N} (several chunks per body are concatenated into one stream by the library, so this is a multi-step devmod history), repeated/changed nummodules, other devmod keys, wrongly typed values; same oracle as server")
+	ev.Rapid(r, "devmod", ev.N{Quick: 1600, Thorough: 100000}, func(t *rapid.T) caseDesc {
+		return caseDesc{Side: "server", Pos: 68, Cfg: rapid.IntRange(0, len(cfgs)-1).Draw(t, "cfg"), In: input{Kind: "literal", Op: "devmod-grammar", Hex: hex.EncodeToString(genDevmodMsg(t))}}
 	}, evalServer)
 
 	r.SetRule("client", "for every response position (11,13,21,23,31,33,61,63,65,67,69,71) the real client role (fdo.DI, TO0Client.RegisterBlob, fdo.TO1, fdo.TO2 with a device module) runs against the honest service while a man-in-the-middle replaces that response by a hostile variant (same operators; for 65..71 the plaintext is mutated and re-encrypted under the session keys, or the envelope is mutated). Oracle: the role returns (value or error) within 30 s, no panic, bounded allocation. Non-trivial: every delivered hostile response.")
